@@ -1,12 +1,13 @@
 #!/usr/bin/env python3
-"""Apply every seeded change in /verif/seeded to /repo (one at a time), run the checks listed in its meta.json `caught_by` (quick tier),
-and revert.  Prints one line per seed; exit 1 if a seed is no longer caught.  EXCLUSIVE: nothing else may use /repo while this runs.
-usage: /venv/bin/python tools/verify_seeds.py [seed-id-substring ...]"""
+"""Re-validate every seeded change: apply seeded/<id>/patch.diff in a scratch worktree of /repo (never in /repo itself), run the checks listed
+in meta.json `caught_by` (quick tier) with redun imported from that worktree, and report whether each still reports a violation.
+Evidence of these runs goes to /dev/shm (VERIF_SCRATCH_EVIDENCE).  usage: /venv/bin/python tools/verify_seeds.py [-j N] [seed-id-substring ...]"""
 import glob
 import json
 import os
 import subprocess
 import sys
+from concurrent.futures import ThreadPoolExecutor
 
 ROOT = os.path.dirname(os.path.dirname(os.path.abspath(__file__)))
 
@@ -15,34 +16,60 @@ def sh(*a, **k):
     return subprocess.run(a, capture_output=True, text=True, **k)
 
 
+def one(args):
+    slot, mp = args
+    m = json.load(open(mp))
+    wt = f"/tmp/wt-seeds-{slot}"
+    if not os.path.isdir(wt):
+        sh("git", "-C", "/repo", "worktree", "add", "--detach", wt, "HEAD")
+    sh("git", "-C", wt, "checkout", "--", ".")
+    sh("git", "-C", wt, "checkout", "--detach", "-q", sh("git", "-C", "/repo", "rev-parse", "HEAD").stdout.strip())
+    patch = os.path.join(os.path.dirname(mp), "patch.diff")
+    r = sh("git", "-C", wt, "apply", patch)
+    if r.returncode:
+        return m["id"], "PATCH NO LONGER APPLIES", []
+    res = []
+    env = dict(os.environ, PYTHONPATH=wt, VERIF_SCRATCH_EVIDENCE="1", VERIF_NPROC=os.environ.get("VERIF_NPROC", "8"))
+    for c in m.get("caught_by", []):
+        out = sh(os.path.join(ROOT, "check"), c, "--tier", "quick", cwd=ROOT, env=env)
+        n = sum(1 for line in out.stdout.splitlines() if line.startswith("VIOLATION"))
+        res.append((c, out.returncode, n))
+    sh("git", "-C", wt, "checkout", "--", ".")
+    ok = bool(res) and all(rc == 1 and n > 0 for _c, rc, n in res)
+    return m["id"], "caught" if ok else "NOT CAUGHT", res
+
+
 def main():
-    want = sys.argv[1:]
-    if sh("git", "-C", "/repo", "status", "--porcelain", "--untracked-files=no").stdout.strip():
-        print("/repo is not clean")
-        return 2
+    argv = sys.argv[1:]
+    jobs = 3
+    if argv[:1] == ["-j"]:
+        jobs = int(argv[1])
+        argv = argv[2:]
+    metas = [mp for mp in sorted(glob.glob(os.path.join(ROOT, "seeded", "*", "meta.json"))) if not argv or any(w in mp for w in argv)]
     bad = 0
-    for mp in sorted(glob.glob(os.path.join(ROOT, "seeded", "*", "meta.json"))):
-        m = json.load(open(mp))
-        if want and not any(w in m["id"] for w in want):
-            continue
-        patch = os.path.join(os.path.dirname(mp), "patch.diff")
-        r = sh("git", "-C", "/repo", "apply", patch)
-        if r.returncode:
-            print(f"{m['id']}: PATCH NO LONGER APPLIES ({r.stderr.strip().splitlines()[-1] if r.stderr.strip() else ''})")
-            bad += 1
-            continue
+    slots = list(range(jobs))
+    # one worktree per worker thread
+    import queue
+
+    q = queue.Queue()
+    for s in slots:
+        q.put(s)
+
+    def run(mp):
+        s = q.get()
         try:
-            res = []
-            for c in m.get("caught_by", []):
-                out = sh(os.path.join(ROOT, "check"), c, "--tier", "quick", cwd=ROOT)
-                n = sum(1 for l in out.stdout.splitlines() if l.startswith("VIOLATION"))
-                res.append((c, out.returncode, n))
-            ok = bool(res) and all(rc == 1 and n > 0 for _c, rc, n in res)
-            print(f"{m['id']}: {'caught' if ok else 'NOT CAUGHT'} {res}", flush=True)
-            bad += 0 if ok else 1
+            return one((s, mp))
         finally:
-            sh("git", "-C", "/repo", "checkout", "--", ".")
-    # evidence files were rewritten by runs on mutated trees: the caller must re-run the checks on the clean tree before committing evidence
+            q.put(s)
+
+    with ThreadPoolExecutor(jobs) as ex:
+        for sid, verdict, res in ex.map(run, metas):
+            print(f"{sid}: {verdict} {res}", flush=True)
+            bad += verdict != "caught"
+    for s in slots:
+        sh("git", "-C", "/repo", "worktree", "remove", "--force", f"/tmp/wt-seeds-{s}")
+    sh("git", "-C", "/repo", "worktree", "prune")
+    print(f"{len(metas)} seeds, {bad} not caught")
     return 1 if bad else 0
 
 
